@@ -364,7 +364,8 @@ def main():
         if args.attribute:
             attrs = set(args.attribute)
             if ':all' in attrs:
-                attrs = {field.name for field in api.route_schema.fields}
+                attrs.remove(':all')
+                attrs.update(field.name for field in api.route_schema.fields)
         else:
             attrs = set()
 
